@@ -180,3 +180,10 @@ func VerifAbandon(db *DB) {
 	db.mu.RUnlock()
 	_ = mt.wal.Close()
 }
+
+// VerifTxnOvertaken reports whether the read watermark has moved past the read timestamp of
+// an open transaction (which the engine never intends). A harness uses it only to decide
+// WHICH transaction to keep open and probe; verdicts rest on what the API returns.
+func VerifTxnOvertaken(txn *Txn) bool {
+	return !txn.discarded && txn.db.oracle.readMark.DoneUntil() > txn.readTs
+}
